@@ -244,6 +244,24 @@ func checkDumpInduction(r *Run, prog *Program, ga *GA, pfx string) {
 					}
 				}
 			}
+			// a node that has a selector prints it in its own spelling: the Selector value itself (its String method), never
+			// its parts re-joined some other way
+			if hasField(nt, "Selector") {
+				selPrinted := false
+				for _, pc := range pieces {
+					if pc.arg == nil {
+						continue
+					}
+					if (pc.verb == 'v' || pc.verb == 's') && pc.flags == "" && (pc.arg.Key() == loadField(pRecv, "Selector").Key() || isSelectorString(sm.St, pc.arg, pRecv)) {
+						selPrinted = true
+					} else if strings.Contains(pc.arg.Key(), loadField(pRecv, "Selector").Key()[2:]) || strings.Contains(pc.arg.Key(), "&"+pRecv.Key()+".Selector") {
+						probs = append(probs, "the selector is rendered from its parts ("+shortKey(pc.arg)+") instead of in its own spelling (Selector.String)")
+					}
+				}
+				if !selPrinted {
+					probs = append(probs, "the node's selector is not printed in its own spelling (%v of the Selector / Selector.String)")
+				}
+			}
 			if strings.Join(childOrder, ",") != strings.Join(children, ",") {
 				probs = append(probs, fmt.Sprintf("children dumped: %v; the node's Expression fields in declaration order: %v (each exactly once, pre-order)", childOrder, children))
 			}
@@ -545,4 +563,17 @@ func stringLeaves(st *pstate, s *Sym, depth int) []*Sym {
 		}
 	}
 	return []*Sym{s}
+}
+
+func hasField(nt *types.Named, name string) bool {
+	st, ok := nt.Underlying().(*types.Struct)
+	if !ok {
+		return false
+	}
+	for i := 0; i < st.NumFields(); i++ {
+		if st.Field(i).Name() == name {
+			return true
+		}
+	}
+	return false
 }
